@@ -63,6 +63,23 @@ func implC19(line string) string {
 	case "trace":
 		limit, _ := strconv.Atoi(f[1])
 		return implTrace(limit, unhx(f[2]), unhx(strings.SplitN(f[3], "/", 2)[0]))
+	case "emsg":
+		return implEmsg(f[1:])
+	case "etostr":
+		this := map[string]string{"undef": "undefined", "null": "null", "num": "1", "str": "\"s\"", "bool": "true", "obj": "{}",
+			"objn": "{name: \"N\"}", "objm": "{message: \"M\"}", "objnm": "{name: \"N\", message: \"M\"}", "obje": "{name: \"\", message: \"M\"}"}[f[1]]
+		if this == "" {
+			return "bad-op"
+		}
+		v, err := otto.New().Run("var r9; try { r9 = 'ok:' + Error.prototype.toString.call(" + this + "); } catch (e) { r9 = 'throw:' + e.name; } r9")
+		if err != nil {
+			return "run-error:" + hx(err.Error())
+		}
+		if r := v.String(); strings.HasPrefix(r, "ok:") {
+			return sTok(strings.TrimPrefix(r, "ok:"))
+		} else {
+			return r
+		}
 	case "climit":
 		n, _ := strconv.Atoi(f[3])
 		d, _ := strconv.Atoi(f[4])
@@ -174,6 +191,120 @@ func implTrace(limit int, fname, src string) string {
 		return fmt.Sprintf("err-type:%T:%s", err, hx(err.Error()))
 	}
 	return errTok(oe)
+}
+
+func sTok(s string) string { return "s:" + hex.EncodeToString([]byte(s)) }
+
+// implEmsg: error objects made with a message (f = route ctor msg) and engine errors embedding user text
+// (f = "engine" kind text): what Run returns, e.message, own properties, String(e), first line of e.stack.
+func implEmsg(f []string) string {
+	vm := otto.New()
+	if f[0] == "engine" {
+		t := optS(f[2])
+		vm.Set("arg9", t)
+		var body string
+		switch f[1] {
+		case "evaltok":
+			body = "eval(arg9)"
+		case "json":
+			body = "JSON.parse(arg9)"
+		case "ident":
+			body = t
+		case "nonfn":
+			body = "({})[arg9]()"
+		default:
+			return "bad-op"
+		}
+		v, err := vm.Run("var r9 = 'no-throw'; try { " + body + " } catch (e) { r9 = [e.name, e.message, String(e) === e.name + ': ' + e.message, e.stack.split('\\n')[0] === String(e)]; } r9")
+		if err != nil {
+			return "run-error:" + hx(err.Error())
+		}
+		if !v.IsObject() {
+			return "no-throw"
+		}
+		o := v.Object()
+		name, _ := o.Get("0")
+		msg, _ := o.Get("1")
+		c1, _ := o.Get("2")
+		c2, _ := o.Get("3")
+		_, uerr := vm.Run(body)
+		if uerr == nil || uerr.Error() != name.String()+": "+msg.String() || c1.String() != "true" || c2.String() != "true" {
+			return "inconsistent-texts:" + hx(fmt.Sprint(uerr))
+		}
+		return name.String() + "|" + sTok(msg.String())
+	}
+	route, ctor := f[0], f[1]
+	args := ""
+	if f[2] != "-" {
+		vm.Set("arg9", optS(f[2]))
+		args = "arg9"
+	}
+	var mk string
+	switch route {
+	case "new":
+		mk = "e9 = new " + ctor + "(" + args + ");"
+	case "call":
+		mk = "e9 = " + ctor + "(" + args + ");"
+	case "make":
+		if f[2] == "-" {
+			return "bad-op"
+		}
+		vm.Set("raise9", func(call otto.FunctionCall) otto.Value {
+			k := call.Argument(0).String()
+			m := call.Argument(1).String()
+			switch k {
+			case "TypeError":
+				panic(call.Otto.MakeTypeError(m))
+			case "RangeError":
+				panic(call.Otto.MakeRangeError(m))
+			case "SyntaxError":
+				panic(call.Otto.MakeSyntaxError(m))
+			}
+			panic(call.Otto.MakeCustomError(k, m))
+		})
+		mk = "try { raise9(" + jsStr(ctor) + ", arg9); } catch (x) { e9 = x; }"
+	default:
+		return "bad-op"
+	}
+	if _, err := vm.Run("var e9; " + mk); err != nil {
+		return "make-error:" + hx(err.Error())
+	}
+	get := func(src string) string {
+		v, err := vm.Run(src)
+		if err != nil {
+			return "ERR:" + err.Error()
+		}
+		return v.String()
+	}
+	mt := get("typeof e9.message")
+	m := "-"
+	if mt == "string" {
+		m = sTok(get("e9.message"))
+	}
+	b := func(src string) string {
+		if get(src) == "true" {
+			return "1"
+		}
+		return "0"
+	}
+	stack := get("e9.stack")
+	lines := strings.Split(stack, "\n    at ")
+	nt := "0"
+	if route != "make" && len(lines) > 1 && lines[1] == ctor+" (<native code>)" {
+		nt = "1"
+	}
+	head := lines[0]
+	if len(lines) == 1 {
+		head = strings.TrimSuffix(head, "\n")
+	} else {
+		// the last frame line ends the text; nothing to trim from the head
+	}
+	_, rerr := vm.Run("throw e9")
+	if rerr == nil {
+		return "no-run-error"
+	}
+	return "run=" + sTok(rerr.Error()) + "|mt=" + mt + "|m=" + m + "|om=" + b("e9.hasOwnProperty('message')") + "|on=" + b("e9.hasOwnProperty('name')") +
+		"|s=" + sTok(get("String(e9)")) + "|h=" + sTok(head) + "|nt=" + nt
 }
 
 // implCLimit: trace limit tl ("d" = leave the default), stack-depth limit sl (0 = leave unset) configured on a fresh
